@@ -141,7 +141,7 @@ func (ex *Exec) bitop(op string, a, b *smt.Term, t types.Type) (*smt.Term, bool)
 	}
 	// symbolic-symbolic: expand bit by bit for declared/narrow widths
 	width := uint(0)
-	if w, ok := ex.bitsDecl[typeKey(t)]; ok {
+	if w, ok := ex.bitsFor(t); ok {
 		width = uint(w)
 	} else if uns && bitsOf(t) <= 16 {
 		width = bitsOf(t)
@@ -171,4 +171,13 @@ func (ex *Exec) bitop(op string, a, b *smt.Term, t types.Type) (*smt.Term, bool)
 		ex.assume(wf)
 	}
 	return r, false
+}
+
+func (ex *Exec) bitsFor(t types.Type) (int, bool) {
+	if n, ok := t.(*types.Named); ok {
+		if w, ok := ex.bitsDecl[n.Obj().Name()]; ok {
+			return w, true
+		}
+	}
+	return 0, false
 }
